@@ -122,6 +122,16 @@ func (v *defaultValidator) generate(out *codegen.Emitter, format string) {
 	out.Printlnf("}")
 }
 
+// sdump prints a default value as a Go literal. Pointer replacement is off: equal sub-values of a decoded
+// JSON document (two empty arrays, say) may share an address, and litter would then print the second one
+// as a reference ("p0") to a variable that does not exist in the emitted code.
+func sdump(value any) string {
+	opts := litter.Config
+	opts.DisablePointerReplacement = true
+
+	return opts.Sdump(value)
+}
+
 func (v *defaultValidator) dumpDefaultValue(out *codegen.Emitter) any {
 	nt, ok := v.defaultValueType.(*codegen.NamedType)
 	if v.defaultValueType != nil && ok {
@@ -129,7 +139,7 @@ func (v *defaultValidator) dumpDefaultValue(out *codegen.Emitter) any {
 		if ok {
 			namedFields := ""
 			for _, k := range sortedKeys(dvm) {
-				namedFields += fmt.Sprintf("\n%s: %s,", upperFirst(k), litter.Sdump(dvm[k]))
+				namedFields += fmt.Sprintf("\n%s: %s,", upperFirst(k), sdump(dvm[k]))
 			}
 
 			namedFields += "\n"
@@ -143,7 +153,7 @@ func (v *defaultValidator) dumpDefaultValue(out *codegen.Emitter) any {
 	}
 
 	// Fallback to sdump in case we couldn't dump it properly.
-	return litter.Sdump(v.defaultValue)
+	return sdump(v.defaultValue)
 }
 
 func (v *defaultValidator) tryDumpDefaultSlice(maxLineLen int32) (string, error) {
@@ -160,7 +170,7 @@ func (v *defaultValidator) tryDumpDefaultSlice(maxLineLen int32) (string, error)
 		}
 
 		for _, value := range df {
-			tmpEmitter.Printlnf("%s,", litter.Sdump(value))
+			tmpEmitter.Printlnf("%s,", sdump(value))
 		}
 
 	default:
